@@ -134,3 +134,11 @@ func vB64AlphabetAxiom()
 func vSignedHash(signatureB64 string) crypto.Hash
 
 func vSetSignedContent(s string)
+
+func vTreeSig(e *etree.Element) string
+func vDigestCovered(k int) string
+func vDigestCalls() int
+func vSignDigestKeyIs(k *rsa.PrivateKey) bool
+
+func vSignatureCovers(root *etree.Element, sigIndex int) bool
+func vSPCertBytes() []byte
